@@ -23,6 +23,7 @@ cdef leave_context(object context, async_task.AsyncTask active_task)
 
 
 cdef class NonAsyncContext(object):
+    cdef public async_task.AsyncTask _active_task
     cpdef NonAsyncContext __enter__(self)
     cpdef __exit__(self, ty, val, tb)
     cpdef pause(self)
